@@ -96,7 +96,7 @@ func main() {
 	s := &scenario{name: os.Args[1], only: -1, start: time.Now()}
 	switch os.Args[3] {
 	case "quick":
-		s.budget = 24 * time.Second
+		s.budget = 40 * time.Second
 	case "thorough":
 		s.thorough = true
 		s.budget = 290 * time.Second
